@@ -16,7 +16,12 @@ import (
 func init() {
 	streams["cache"] = cacheStream
 	replayers["cache"] = func() replayFn { st := &cacheState{}; return st.apply }
-	oracles["cache"] = cacheOracle
+	oracles["cache"] = func(r *rand.Rand, n int, tier string, infile string) (int, []string) {
+		return cacheOracle(r, n, tier, infile, true, false)
+	}
+	oracles["cacheorder"] = func(r *rand.Rand, n int, tier string, infile string) (int, []string) {
+		return cacheOracle(r, n, tier, infile, false, true)
+	}
 }
 
 func tm(t int64) time.Time {
@@ -294,7 +299,7 @@ func cacheStream(r *rand.Rand, n int, tier string, o *hx.Out) {
 // Delete, Expire output or a reported eviction; Get returns the latest value; Expire removes exactly the
 // expired entries; ForEach(k) is a permutation in non-decreasing distance; Closest is a minimum; ForEachCloser
 // yields all and only the entries nearer to k than the locus.
-func cacheOracle(r *rand.Rand, n int, tier string, infile string) (cases int, fails []string) {
+func cacheOracle(r *rand.Rand, n int, tier string, infile string, checkMap, checkOrder bool) (cases int, fails []string) {
 	fail := func(hist []string, format string, a ...any) {
 		if len(fails) < 40 {
 			h := hist
@@ -349,7 +354,7 @@ func cacheOracle(r *rand.Rand, n int, tier string, infile string) (cases int, fa
 					refm[op[1]] = ref{hx.UnHex(op[2]), atoi(op[4])}
 				}
 				if ev != "-" {
-					if _, ok := refm[ev]; !ok {
+					if _, ok := refm[ev]; !ok && checkMap {
 						fail(hist, "reported victim %s was not in the cache", ev)
 					}
 					delete(refm, ev)
@@ -359,7 +364,7 @@ func cacheOracle(r *rand.Rand, n int, tier string, infile string) (cases int, fa
 				if e, ok := refm[op[1]]; ok {
 					want = hx.Hex(e.val)
 				}
-				if res != want {
+				if res != want && checkMap {
 					fail(hist, "Get(%s) = %s, reference map says %s", op[1], res, want)
 				}
 			case "del":
@@ -378,7 +383,7 @@ func cacheOracle(r *rand.Rand, n int, tier string, infile string) (cases int, fa
 				if len(want) > 0 {
 					ws = strings.Join(want, ",")
 				}
-				if strings.Fields(res)[0] != ws {
+				if strings.Fields(res)[0] != ws && checkMap {
 					fail(hist, "Expire(%d) removed %s, exactly the expired entries are %s", now, strings.Fields(res)[0], ws)
 				}
 			case "foreach", "closest", "closer":
@@ -389,7 +394,12 @@ func cacheOracle(r *rand.Rand, n int, tier string, infile string) (cases int, fa
 						got = append(got, hx.UnHex(s))
 					}
 				}
-				cacheOrderOracle(op[0], k, st.locus, got, refKeys(refm), func(f string, a ...any) { fail(hist, f, a...) })
+				if checkOrder {
+					cacheOrderOracle(op[0], k, st.locus, got, refKeys(refm), func(f string, a ...any) { fail(hist, f, a...) })
+				}
+			}
+			if !checkMap {
+				continue
 			}
 			// count and content against the reference after every op
 			cnt := st.c.Count()
